@@ -274,12 +274,19 @@ def _g_bf_sizing(tier, rnd):
             yield {"self": None, "args": {"cls": None, "estimated_elements": n, "false_positive_rate": p}}
 
 
-@gen("CountingBloomFilter.add", "CountingBloomFilter.check")
+@gen("CountingBloomFilter.add", "CountingBloomFilter.remove")
 def _g_cb_keys(tier, rnd):
     for m, k, rec in cbloom_states(tier, rnd):
         for key in ("a", "test", b"a"):
             args = {"key": key if isinstance(key, str) else {"__bytes__": key.hex()}}
             yield {"self": rec, "args": dict(args, num_els=3)}
+
+
+@gen("CountingBloomFilter.check")
+def _g_cb_keycheck(tier, rnd):
+    for m, k, rec in cbloom_states(tier, rnd):
+        for key in ("a", "test", b"a"):
+            yield {"self": rec, "args": {"key": key if isinstance(key, str) else {"__bytes__": key.hex()}}}
 
 
 @gen("CountingBloomFilter._cnt_number_bits_set", "CountingBloomFilter.estimate_elements")
